@@ -137,10 +137,12 @@ CLAIMED["C11"] = dict(
          "(C11_no_spurious_panic). The model is tied to the Rust by the tendril correspondence (result, bytes, "
          "inline/owned/shared kind, sharing groups, allocation sizes after every op; 5 formats × 2 atomicities).",
     note="Partial: WTF-8 (the only format with a concatenation fix-up) has no proved format laws — it is covered by the "
-         "safety theorems of C12, the correspondence and the Python reference only; the check found a genuine defect "
-         "there (WTF8::validate accepts a stray continuation byte after a 2-/3-byte character and skips what follows: "
-         "C11_witness_wtf8_validate, minimal case `tendril wtf8 N from 0 c2 80 80`), reported as VIOLATION until fixed "
-         "or listed in known_findings.json (matcher ids F22 / F-C11-WTF8-VALIDATE). Trusted: Lean kernel; the "
+         "safety theorems of C12, the correspondence and the Python reference only. The check found a genuine defect "
+         "there (WTF8::validate accepted a stray continuation byte after a 2-/3-byte character and skipped what "
+         "followed: C11_witness_wtf8_validate_pinned), fixed in /repo by 218f57f; the model follows the fix "
+         "(C11_wtf8_validate_rejects_stray) and corpus/C11/wtf8_validate.case keeps the witnesses as regression "
+         "cases. A push that needs growth beyond 2^31 bytes panics with OFLOW (documented upstream capacity rounding; "
+         "C11_witness_oflow_2gib) — outside the exercised range, never an alarm. Trusted: Lean kernel; the "
          "hand-written model + the tendril correspondence (differential, coverage in evidence); str::from_utf8 / "
          "char_indices modelled by a Table 3-7 decoder (validated on boundary sequences, thorough tier on all leading "
          "byte pairs); pointer provenance, transmutes between formats/atomicities and Vec/allocator internals are "
@@ -199,6 +201,156 @@ CLAIMED["C20"] = dict(
          "frees a node, the engine keeps every handle alive). Two defects found on the pinned tree (selectedcontent "
          "never mirrored; append_before_sibling stale index) are repaired in /repo (ebdbd68, 394a5e0); the pinned "
          "behaviour is kept as named model variants with witness theorems, the minimal inputs as regression corpus.")
+
+CLAIMED["C16"] = dict(
+    engine="xmltb", design_ref="6.16",
+    technique="Lean 4 proof (token-level model of the xml5ever tree builder + the tokenizer's per-tag attribute step; "
+              "balance invariant and panic freedom by induction over token lists; simulation of the model by an "
+              "independent lexical-scope resolver S.resolve) + model/code correspondence through XmlTreeBuilder fed "
+              "directly and through the real tokenizer; independent Python resolver as oracle on the real code",
+    text="For every token list the model of the tree builder never hits an expect and keeps exactly one namespace map per "
+         "open element (C16_balance; the one unbalanced End-phase state after an empty <script/> root is part of the "
+         "invariant and harmless). With the committed fixes the created elements - prefix, namespace, local name, "
+         "attribute namespaces, order, values - equal the recursive scope resolver S.resolve for EVERY sequence of lexed "
+         "tags and other tokens, no side condition (C16_resolve_source_fixed = tokenizer duplicate step + builder); an "
+         "attribute is dropped only if an earlier attribute of the tag has the same qualified / expanded name "
+         "(C16_tok_dropped_only_if_fixed, C16_attr_dropped_only_if, C16_attrs_sublist); process_qname splits exactly at a "
+         "single inner colon (C16_splitQName_*). The pre-fix behaviour is kept as named configurations TokCfg.code / "
+         "TbCfg.code with _partial theorems and decided witnesses (item 14, p:xmlns, duplicate declarations).",
+    note="Trusted: Lean kernel; the hand-written model lean/H5V/Model/XmlTB.lean and Spec lean/H5V/Spec/XmlNs.lean (choices "
+         "where the property is silent are listed there: unbound prefix => empty namespace, xmlns-URI / xml / xmlns "
+         "declarations without effect, first of duplicate declarations counts); the xmltb correspondence (exhaustive "
+         "3-level nestings x closers x tag-kind sequences x attribute orders + seeded random, coverage in evidence). "
+         "Lexing of XML text into raw tags is NOT modelled here: src cases carry it on structurally generated documents "
+         "only, through the real tokenizer. Tokens are assumed to reach the builder with ns=\"\" (what the tokenizer emits).")
+
+CLAIMED["C17"] = dict(
+    engine="xmlser", design_ref="6.17",
+    technique="Lean 4 proof (model of XmlSerializer + rcdom Serialize as an event stream; escaping lemmas; the tree-builder "
+              "model of C16 run on the lexed events, by induction on the well-nested event stream; simulation between the "
+              "serializer's namespace stack, the parser's stack and the Spec environment by induction on the tree) + byte-exact "
+              "model/code correspondence of the serialized text + real re-parse equality oracle (tree -> serialize -> parse, "
+              "and source -> parse -> serialize -> parse)",
+    text="Escaping is proved reversible for every string in text and attribute mode, escaped text contains no '<' and an "
+         "escaped value no '\"' (C17_unescape_escape, C17_escape_delimiters, C17_text/attr_roundtrip). Round trip "
+         "(C17_roundtrip_partial, for every serializer/lexer/builder configuration): a parsed-shape document (misc* root "
+         "misc*, no doctype / empty / adjacent text inside elements) serialized, lexed and rebuilt gives the same tree - "
+         "names, namespaces, attribute order and values, text, comments, PIs, nesting; doctype ids dropped - PROVIDED every "
+         "written start tag resolves, in the scope of the declarations written so far, to the element's own name and "
+         "attributes (okEvs, a decidable check of the output). For the serializer as fixed in /repo okEvs is itself a "
+         "theorem (C17_okEvs_fixed: every prefix used by an element or any of its attributes is declared, the default "
+         "namespace is un-declared where needed, for every tree with parser-produced tags), giving C17_roundtrip_fixed "
+         "without side condition, U+000D included. The five pre-fix defects are decided witnesses about the named "
+         "configuration SerCfg.code. Partial: that every tree the parser builds has parser-produced tags / parsed shape "
+         "(treesOK, nodesOK) is not proved as one theorem (it follows the C16 statements: one scope per tag, duplicates "
+         "removed, declarations consumed) - the src-mode oracle (parse, serialize, parse) covers it on the real code.",
+    note="Trusted: Lean kernel; lean/H5V/Model/XmlSer.lean; `lexEv` = ASSUMED tokenization of serializer output (names split "
+         "at the colon, five references + &#13; decoded, CR/LF normalisation, declarations/attributes through the modelled "
+         "attribute step) - not proved against a tokenizer model; it is validated on every case: tree-builder model on "
+         "lexEv tokens = real re-parse of the real bytes (cases with lex-hostile namespace URIs compare bytes only). "
+         "Doctype public/system ids are outside the serializer API.")
+
+CLAIMED["C05"] = dict(
+    engine="rcdom", design_ref="6.5",
+    technique="run-time contract monitor on the real HTML and XML tree builders (TracingSink<RcDom>: every sink call is "
+              "validated before it is forwarded) over generated documents, fragments, scripting on/off and random "
+              "chunking + replay of every harvested call trace on the Lean DOM model, which evaluates the same "
+              "contract per call (ties the monitor to the Lean predicate) + Lean 4 theorems about the DOM side of the "
+              "contract",
+    text="That the tree builders only issue calls satisfying the documented TreeSink contract "
+         "(`H5V.Model.Dom.Contract`: element-only operations get elements, appended nodes are parentless, nothing is "
+         "inserted under itself or a descendant, insert-before siblings are non-text nodes with a parent, at most one "
+         "doctype and before any element, no attribute list with a repeated name) is DECIDED BY THE CONTRACT MONITOR on "
+         "the real parsers for the inputs of each run, and cross-checked by the model-side replay of every trace "
+         "(per-call verdicts, call results and final DOM dumps identical) - it is not proved for all inputs, the "
+         "tree-builder models being a separate package. PROVED (Lean kernel) is the DOM side: the contract is "
+         "decidable; a call within it never makes RcDom panic (every TreeSink method except the option->selectedcontent "
+         "mirroring; both behaviours of append_before_sibling) and re-establishes the invariant of C20, so a "
+         "contract-abiding call sequence runs to its end without a panic (C05_run) and a trace the model-side monitor "
+         "does not flag does so (C05_monitor_sound); calls outside the contract do panic or corrupt RcDom (witness "
+         "theorems); duplicate-free attribute lists keep elements duplicate-free.",
+    note="Trusted: Lean kernel; my reading of the trait documentation as `Contract`; the monitor's shadow structure "
+         "(harness/src/sinkops.rs), tied to `Contract` by replay; the DOM model of C20. Level for the quantifier `all "
+         "inputs`: monitoring (coverage in evidence: parses, calls, op histogram), not proof. C05_no_panic_partial "
+         "excludes maybe_clone_an_option_into_selectedcontent (fuel adequacy of three bounded loops and validity of "
+         "template-contents links are outside the proved invariant; no such call panics in any case). One defect found "
+         "(xml5ever appended a doctype per DOCTYPE token) is repaired in /repo (b61995b); its input stays in corpus/C05.")
+
+CLAIMED["C18"] = dict(
+    engine="rcdom", design_ref="6.18",
+    technique="translator-backed Lean theorem (field lists of both tree-builder structs and the fields reported inside "
+              "trace_handles are regenerated from the source each run; coverage by `decide`) + Lean reachability lemmas "
+              "on the DOM model + GC-simulating sink on the real parsers (simulated collection at every chunk boundary "
+              "and Script/EncodingIndicator pause, poisoned handles must never come back)",
+    text="PROVED (Lean kernel): every field of html5ever's TreeBuilder and xml5ever's XmlTreeBuilder whose type mentions "
+         "`Handle` is reported to the tracer inside trace_handles (C18_fields_html / _xml, on lists regenerated by "
+         "tools/extract.py from /repo: an untraced new Handle field or a deleted trace_handle call breaks the proof and "
+         "names the field); on the DOM model, every sink call that cannot detach a node keeps every parent / child / "
+         "template-contents link, so whatever was connected to a traced handle stays connected (C18_reach_step/_run), "
+         "remove_from_parent and reparent_children keep it connected once the two ends of the cut are roots "
+         "(C18_reach_remove/_reparent), template contents are connected to their element (C18_reach_template). "
+         "CHECKED AT RUN TIME on the real code, not proved for all inputs: that every handle the tree builders pass to "
+         "the sink after a suspension point was, at that point, connected to a handle reported by the real "
+         "trace_handles - a GC-simulating sink runs a collection at every chunk boundary (all 2-partitions and "
+         "one-character chunkings of the document families of C05) and at every Script / EncodingIndicator return, "
+         "poisons every node not connected to a traced handle, and fails if a poisoned handle is used again; a self-test "
+         "(last traced handle dropped) shows the oracle fires.",
+    note="Trusted: Lean kernel; the extractor's criteria (field type mentions `Handle`; a top-level statement of "
+         "trace_handles mentions self.<field> and calls tracer.trace_handle); the shadow DOM of the monitoring sink "
+         "(tied to the Lean DOM model by the C05/C20 correspondence); the DOM model. Assumes collections happen only "
+         "between feed calls and at Script/EncodingIndicator returns, and that the embedder keeps the script node it was "
+         "handed. The link between `traced fields` and `future sink arguments` needs the tree-builder models (separate "
+         "package) to be proved; here it is decided by the oracle on the inputs x suspension points of each run.")
+
+CLAIMED["C03"] = dict(
+    engine="tok", design_ref="6.3",
+    technique="Lean 4 proof: step monotonicity + resumability + invariant => chunk-merging theorem by induction over "
+              "big-step runs (simulation up to a dead register); model/code correspondence on exhaustive "
+              "state x character x boundary cover; chunked-vs-whole oracle on the real code",
+    text="C03_chunk_independence is proved for the tokenizer model for every input, every partition into chunks (empty and "
+         "single-character chunks included), every start state, sink policy and exact_errors setting: the chunked session "
+         "and the one-piece run deliver the same (token, line) sequence including parse errors and Script/EncodingIndicator "
+         "pause positions. The proof rests on three per-step theorems (a completed step is unaffected by appended input; a "
+         "suspended step has consumed everything and re-executes like the step on the concatenation; an invariant on "
+         "temp_buf/ignore_lf/reconsume is preserved by all 73 states) and a simulation that ignores the dead current_char. "
+         "The model is tied to tokenizer/mod.rs + char_ref/mod.rs by the tok correspondence on ~150k chunked cases per quick "
+         "run (every boundary position of every cover input); the same cases decide chunked = whole on the real code, and "
+         "text injected at a script pause is compared with the same text written inline.",
+    note="Trusted: Lean kernel; the hand-written tokenizer model + tok correspondence; BufferQueue abstracted to a flat list "
+         "(C13); bulk reads modelled per character (tokens compared after merging character runs). Not covered by the theorem: "
+         "tree-builder level chunk independence (checked on the real code by the tree-builder engine), termination of runs "
+         "(C04), the end() sequence (compared by the correspondence).")
+
+CLAIMED["C08"] = dict(
+    engine="tok", design_ref="6.8",
+    technique="Lean 4 proof of the per-transition core (fast path = slow path for non-set characters; char sets regenerated "
+              "from the source equal the model's; BOM prologue) + option-flipping oracle on the real code + correspondence "
+              "under all option combinations",
+    text="Proved: the small_char_set of every pop_except_from state (regenerated from tokenizer/mod.rs on every run) is the "
+         "model's set, contains CR/LF/NUL, and the SIMD stop sets are derived from the data-state set; in every such state a "
+         "character outside the set is handled identically as FromSet (slow path: exact_errors/reconsume/pending LF) and inside "
+         "a NotFromSet run (fast path, SIMD), except five characters in the unquoted attribute state for which the slow path "
+         "only adds a parse error; discard_bom acts on the first character of the stream only. PARTIAL: the whole-run statement "
+         "(token streams with/without exact_errors equal modulo errors) is decided on the real code by running every cover input "
+         "and chunking under all exact_errors x profile x discard_bom combinations (code vs code), and for the model by the "
+         "correspondence under the same combinations.",
+    note="Trusted: Lean kernel; tools/extract.py; tokenizer model + tok correspondence; SIMD lane arithmetic is not modelled "
+         "(exact_errors forces the scalar path, so the oracle compares SIMD and scalar on the real code). Tree-builder options "
+         "and xml5ever are covered by their own engines.")
+
+CLAIMED["C09"] = dict(
+    engine="tok", design_ref="6.9",
+    technique="Lean 4 proof of the counting primitives (only the reader counts; CR, LF, CRLF once; look-ahead and "
+              "before-attribute-value never drop a break) + C03 for chunking; prefix oracle on the real code; correspondence on "
+              "every line number",
+    text="Proved for the tokenizer model: no transition and no raw discard changes current_line; input preprocessing bumps it "
+         "exactly when it delivers LF, i.e. once per CR, LF or CRLF, also when CR and LF are split across chunks; the look-ahead "
+         "prologue only skips the LF of an already counted CRLF; before-attribute-value consumes breaks through get_char. "
+         "Chunk independence of all line numbers is part of C03_chunk_independence. PARTIAL: the end-to-end invariant "
+         "line = 1 + breaks(consumed prefix) is decided on the real code: EOF line of every run, and for every token of every "
+         "short cover input the line is checked against the prefix consumed when it appears (one-character feeding without end()).",
+    note="Trusted: Lean kernel; tokenizer model + tok correspondence (compares every line number); the prefix oracle allows the "
+         "one-character window in which a look-ahead may or may not have consumed the current character.")
 
 PENDING_REASON = "not claimed yet: the Lean model / engine for this property is still under construction (see DESIGN.md section 8); no check is registered rather than registering one that is not sound"
 
